@@ -120,9 +120,13 @@ class Compiler:
             wait_for=_tup(node.get("wait_for", [])),
             rename_inputs=node.get("rename_inputs") or None,
         )
-        if deco:
-            return hg.node(output_name=_tup(node.get("outs", [])), **kw)(func)
-        return FunctionNode(func, name=node["name"], output_name=_tup(node.get("outs", [])), **kw)
+        ren = {}
+        if node.get("emit_via_rename") and node.get("emit"):
+            # the signal is declared under a provisional name and renamed with with_outputs (emit outputs are outputs)
+            ren = {"pre_" + e: e for e in node["emit"]}
+            kw["emit"] = _tup(list(ren))
+        n = hg.node(output_name=_tup(node.get("outs", [])), **kw)(func) if deco else FunctionNode(func, name=node["name"], output_name=_tup(node.get("outs", [])), **kw)
+        return n.with_outputs(**ren) if ren else n
 
     def gate_node(self, node: dict) -> Any:
         bkey = node.get("fid", node["name"])
